@@ -83,7 +83,10 @@ def fault_job(args):
             what = fe[0]["what"] if fe else "?"
             fpath = fe[0].get("path") if fe else None
             # did the summary rewrite start before the fault?
-            touched = any(e["ev"] == "open" and e["path"] == "_metadata" and "w" in e["mode"] for e in rec.events)
+            # (only the calls made BEFORE the injected failure count: a summary written afterwards, e.g. by a cleanup
+            # handler, is exactly what the property forbids)
+            nf = next((i for i, e in enumerate(rec.events) if e["ev"] == "fault"), len(rec.events))
+            touched = any(e["ev"] == "open" and e["path"] == "_metadata" and "w" in e["mode"] for e in rec.events[:nf])
             in_summary = touched or (fpath in ("_metadata", "_common_metadata"))
             run = {"k": k, "what": what, "path": fpath, "raised": type(raised).__name__ if raised else None,
                    "summary_started": in_summary, "viol": []}
